@@ -1,7 +1,8 @@
 module github.com/hashicorp/hcl-lang
 
-go 1.21.0
-toolchain go1.22.5
+go 1.22.0
+
+toolchain go1.23.5
 
 require (
 	github.com/google/go-cmp v0.6.0
